@@ -1801,3 +1801,17 @@ func init() {
 		return ptrTo(&nativeReplacer{strings.NewReplacer("\n", "-", "\r", "-")})
 	}
 }
+
+// Environment stub: the file system has no files. os.ReadFile / os.Open fail for every path
+// (the harnesses serve documents through ReadFromURIFunc; this only lets code that falls through
+// to the default file reader end with an error instead of being unsupported). Native replays use
+// paths that do not exist, so both sides agree.
+func init() {
+	externals["os.ReadFile"] = func(fr *frame, a []value) value {
+		name, ok := a[0].(string)
+		if !ok {
+			panic(unsupported{"os.ReadFile of a symbolic path"})
+		}
+		return tuple{[]value(nil), fr.i.newError(fr, "open "+name+": no such file or directory")}
+	}
+}
